@@ -95,7 +95,8 @@ def layer_files(ctx, iter_xml):
 # ---------------------------------------------------------------------------
 # markup grammar for the identity layer
 NAMES = ['p', 'div', 'B', 'x-y', 'é', 'a1', 'br', 'li', 'input', '_u', 'a.b', 'Td', 'ns:el']
-ANAMES = ['a', 'Class', 'data-x', 'é', 'on_click', 'a.b', '@click', 'xml:lang', 'b', 'c', 'D', 'data-a-b']
+ANAMES = ['a', 'Class', 'data-x', 'é', 'on_click', 'a.b', '@click', 'xml:lang', 'b', 'c', 'D', 'data-a-b', 'n', 'r', 't',
+          'nt', 'rn', 'tr', 'href']
 WS = [' ', '  ', '\n', '\t', ' \n ', '\r\n', '\r']
 
 
@@ -143,7 +144,7 @@ class DocGen:
             return self.ws() + n + self.ows('eq-space') + '=' + self.ows('eq-space') + "'" + v + "'"
         if k < 0.85:
             self.knobs.add('unquoted')
-            return self.ws() + n + '=' + ''.join(rng.choice('abc123-_.:%#') for _ in range(rng.randint(1, 4)))
+            return self.ws() + n + '=' + ''.join(rng.choice('abc123-_.:%#/') for _ in range(rng.randint(1, 4)))
         self.knobs.add('valueless')
         return self.ws() + n
 
@@ -256,6 +257,25 @@ def diff_kind(exp, got):
     return 'text', j
 
 
+UNQ_SLASH = re.compile(r'(=[ \t\r\n]*)([^\s"\'<>=`]*/[^\s<>`"\']*)')
+
+
+def slash_in_unquoted_value_explains(src):
+    """Known mechanism: an unquoted attribute value containing '/' is not dissected by the tag parser
+    (text silently lost, or a crash).  Metamorphic classifier: the same document with every '/' of such
+    values replaced by 'S' must render to itself; only then is the disagreement attributed."""
+    if not UNQ_SLASH.search(src):
+        return False
+    from chameleon import PageTemplate
+    src2 = UNQ_SLASH.sub(lambda m: m.group(1) + m.group(2).replace('/', 'S'), src)
+    # keep a self-closing "/>" intact
+    src2 = src2.replace('S>', '/>') if src.count('/>') and src2.count('/>') < src.count('/>') else src2
+    try:
+        return PageTemplate(src2)() == expected_identity(src2)
+    except Exception:
+        return False
+
+
 def check_identity(ctx, src, knobs=()):
     from chameleon import PageTemplate
     from chameleon.exc import TemplateError
@@ -279,6 +299,8 @@ def check_identity(ctx, src, knobs=()):
              sample={'source': src, 'rendered_equal': got == exp} if len(src) < 200 else None)
     if got != exp:
         kind, j = diff_kind(exp, got)
+        if slash_in_unquoted_value_explains(src):
+            kind = 'document-with-slash-in-unquoted-attribute-value'
         ctx.violation('identity-diff-in-' + kind,
                       'statement-free document does not render to itself: at offset %d expected %r, got %r'
                       % (j, exp[max(0, j - 20):j + 20], got[max(0, j - 20):j + 20]),
@@ -301,6 +323,10 @@ def layer_identity(ctx, n):
         try:
             check_identity(ctx, d, g.knobs)
         except Exception as e:
+            if slash_in_unquoted_value_explains(d):
+                ctx.violation('identity-diff-in-document-with-slash-in-unquoted-attribute-value',
+                              'statement-free document %r raised %s' % (d[:200], type(e).__name__), {'kind': 'identity', 'src': d})
+                continue
             ctx.violation('identity-crash-' + type(e).__name__,
                           'compiling/rendering a statement-free document raised %s: %s' % (
                               type(e).__name__, str(e)[:200]),
